@@ -73,6 +73,8 @@ class Report:
         EVIDENCE.mkdir(exist_ok=True)
         REPLAYS.mkdir(exist_ok=True)
         replay_paths = []
+        for old in REPLAYS.glob(f"{self.prop}-*.json"):      # replays of an earlier run of this check say nothing about this one
+            old.unlink()
         for n, (key, what, payload) in enumerate(self.violations[:5]):
             p = REPLAYS / f"{self.prop}-{n}.json"
             p.write_text(json.dumps({"property": self.prop, "key": key, "what": what, "payload": payload}, indent=1))
